@@ -472,7 +472,12 @@ struct VHandler : public DirectProtocolHandler {
     int kind = dynamic_cast<PollRequest*>(request) ? 1 : dynamic_cast<ScanRequest*>(request) ? 2 : 0;
     int rid = 1; for (;;) { bool used = false; for (Live& l : g_live) if (l.rid == rid) used = true; if (!used) break; rid++; }
     Proxy* p = new Proxy(request, rid, kind);
-    if (g_nwatch < 64) { g_watch[g_nwatch++] = Watch{(void*)dynamic_cast<void*>(request), malloc_usable_size(dynamic_cast<void*>(request)), rid, 1}; }
+    if (g_nwatch == 64) {   // quarantine full: the oldest deleted object is checked a last time and released
+      checkQuarantine();
+      for (int i = 0; i < g_nwatch; i++) if (g_watch[i].state == 2) { free(g_watch[i].p); memmove(&g_watch[i], &g_watch[i + 1], (size_t)(g_nwatch - i - 1) * sizeof(Watch)); g_nwatch--; break; }
+    }
+    if (g_nwatch < 64) g_watch[g_nwatch++] = Watch{(void*)dynamic_cast<void*>(request), malloc_usable_size(dynamic_cast<void*>(request)), rid, 1};
+    else bad("more-than-64-live-request-objects");
     g_live.push_back(Live{rid, request, p, kind, request->deleteOnFinish()});
     ev("{\"e\":\"new\",\"rid\":" + ji(rid) + ",\"del\":" + ji(request->deleteOnFinish()) + ",\"wait\":" + ji(wait) + ",\"req\":" + reqJson(request, kind) + "}");
     result_t r = ProtocolHandler::addRequest(p, false);
